@@ -27,4 +27,9 @@ class Driver(ChanDriver):
             (1, [(1, ('idle',), [[(1, F('NReturn', 312)), (1, F('NHeader', 0)), (1, F('NReturn', 313)), (1, F('NHeader', 0))]]),
                  (1, ('idle',), [[(1, F('NChClose', 404))]]),
                  (1, ('ack',), []), (1, ('ack',), []), (1, ('ack',), []), (1, ('ack',), [])]),
+            # the broker closes the connection (320), then the socket goes away too: the first
+            # reason is what every channel reports
+            (2, [(1, ('idle',), [[(0, F('NChClose', 320))]]),
+                 (1, ('idle',), [[(0, F('NFaultRecv', 0))]]),
+                 (1, ('ack',), []), (2, ('rpc', 0), []), (1, ('check',), [])]),
         ]
